@@ -3,7 +3,8 @@
    in Binary/*.v.  The model (Binary/Model.v) transcribes /repo/binary.go and binary_unix.go; the
    vocabulary (healthy, reachable, allowed, clean, typed_read, read_value, zero_obs, bit_at) is in
    Binary/Spec.v.  Error kinds: E_NIL = nil, E_EOF = io.EOF. *)
-From Verif Require Import Common.Base Common.Tactics Binary.Model Binary.Spec Binary.Proofs Binary.Bitmap.
+From Verif Require Import Common.Base Common.Tactics Binary.Model Binary.Spec Binary.Proofs Binary.Bitmap
+  Binary.Legacy.
 
 (* ---- write / read round trip ------------------------------------------------------------------------ *)
 (* Every list of typed values (u/i 8,16,24,32,64, byte strings), both byte orders: reading the written
@@ -179,6 +180,14 @@ Theorem mmap_empty_read_at_end_refuted :
 Proof. exact mmap_empty_read_at_end_refuted_proof. Qed.
 Print Assumptions mmap_empty_read_at_end_refuted.
 
+(* The in-memory and the mmap backend never panic: every operation sequence with arbitrary arguments
+   (negative lengths and offsets, reads after Close, any whence) from any state runs to the end. *)
+Theorem memory_backends_never_panic :
+  forall (ops : list op) (st : sys bstate),
+    mem_state (bst st) -> exists st' outs, run any_backend st ops = Some (st', outs).
+Proof. exact memory_backends_never_panic_proof. Qed.
+Print Assumptions memory_backends_never_panic.
+
 (* ---- Seek, Read, ReadAt ------------------------------------------------------------------------------------ *)
 (* Seek on every backend and in every state: for whence in {0,1,2} and a target base+off inside
    [0, Len] the position becomes the target and the target is returned (bytes.Reader semantics);
@@ -271,3 +280,18 @@ Theorem bitmap_all_bits_huge_refuted :
                              Forall (fun x => snd x = false) outs.
 Proof. exact bitmap_all_bits_huge_refuted_proof. Qed.
 Print Assumptions bitmap_all_bits_huge_refuted.
+
+(* ---- the repaired defects ------------------------------------------------------------------------------------ *)
+(* The four lines as they were before the fix: commits, on the inputs of DESIGN section 2 (D11, D12, D13 and
+   the ReadInt24 sign), against what the current model computes: a revert of any of them contradicts
+   seek_spec / write_read_roundtrip_mmap_partial / bitmap_all_bits_partial / write_read_roundtrip. *)
+Theorem prefix_defects_legacy_refuted :
+  seek_end_legacy 10 (-3) = 13 /\
+  snd (seek bytes_backend (new_sys [1; 2; 3; 4; 5; 6; 7; 8; 9; 10]) (-3) 2) = VIntErr 7 E_NIL /\
+  br_err (mmap_bytes_legacy [1; 2; 3; 4] 4 0) = E_EOF /\
+  option_map (fun x => br_err (snd x)) (mmap_bytes (mmap_open [1; 2; 3; 4]) true 4 0) = Some E_NIL /\
+  bmr_reads_legacy 8 (bmr_new [255]) = Some ([true; true; true; true; true; true; true; false], true) /\
+  option_map (fun x => bm_eof (fst x)) (bmr_reads 8 (bmr_new [255])) = Some false /\
+  int24_legacy 16777215 = 16777215 /\ sext24 16777215 = -1.
+Proof. exact prefix_defects_legacy_refuted_proof. Qed.
+Print Assumptions prefix_defects_legacy_refuted.
